@@ -13,6 +13,11 @@ def main():
     with open(spec_path) as fh:
         spec = json.load(fh)
     faulthandler.enable()
+    try:
+        import signal
+        faulthandler.register(signal.SIGUSR1, all_threads=True)      # kill -USR1 <pid> dumps the stack
+    except Exception:
+        pass
     wd = spec.get("watchdog_s")
     if wd:
         faulthandler.dump_traceback_later(wd, exit=True)
